@@ -54,7 +54,8 @@ func srvItemsCoq(items []string) string {
 }
 
 // srvScriptCoq maps the script of one connection to the model's client actions.
-func srvScriptCoq(cs srvConn) string {
+// timerAtWait: the run showed that Shutdown's 3 s timer fired while the script waited for Shutdown.
+func srvScriptCoq(cs srvConn, timerAtWait bool) string {
 	var acts []string
 	var pend []string
 	havePend := false
@@ -87,6 +88,12 @@ func srvScriptCoq(cs srvConn) string {
 			acts = append(acts, "CShutdown")
 		case "grace":
 			acts = append(acts, "CTimer")
+			timerAtWait = false
+		case "waitshutdown":
+			if timerAtWait {
+				acts = append(acts, "CTimer")
+				timerAtWait = false
+			}
 		}
 	}
 	if !closed {
@@ -593,7 +600,7 @@ func driveC08(c *h.Ctx) error {
 			if !r.Crashed && k >= len(r.Conns) {
 				continue
 			}
-			rows = append(rows, fmt.Sprintf("(%s, %s)", srvScriptCoq(cs), srvOutcomeCoq(r, k)))
+			rows = append(rows, fmt.Sprintf("(%s, %s)", srvScriptCoq(cs, false), srvOutcomeCoq(r, k)))
 			c.IndexCase("mism_conn", len(rows)-1, map[string]any{"scenario": sc, "conn": k, "observed": r})
 		}
 	}
